@@ -358,7 +358,7 @@ def run(c):
         return
 
     # ---------------------------------------------------------------- 1. design
-    U2, U3 = ["logs", "traces"], ["logs", "metrics", "traces"]
+    U2, U3 = ["logs", "profiles"], ["logs", "metrics", "traces"]     # every signal of the processor is some user
     R3 = ["ok", "err", "perm"]
     if q:
         designs = [("fixed", mc_cfg(FIXED, 3, 1, 5, U2, [1, 2], R3, "small")),
